@@ -574,7 +574,8 @@ def rangeSpec (name : String) (kinds : List String) : RangeSpec :=
   | "SMIErgodicIndicator" => if smooth then { intervals := [(0, -1, 1), (1, -1, 1)] } else { intervals := [(0, -1, 1)] }
   | "TrendStrengthIndex" => { intervals := [(0, -1, 1)] }
   | "ChaikinOscillator" => { docIntervals := [(0, -1, 1)] }
-  | "AverageDirectionalIndex" => if smooth then { docIntervals := [(1, 0, 1), (2, 0, 1)] } else {}
+  -- ADX itself: an average (non-overshooting kind) of |+DI − −DI|/(+DI + −DI) with non-negative DI, hence in [0, 1]
+  | "AverageDirectionalIndex" => if smooth then { intervals := [(0, 0, 1)], docIntervals := [(1, 0, 1), (2, 0, 1)] } else {}
   | "RelativeVigorIndex" => { docIntervals := if smooth then [(0, -1 / 2, 1 / 2), (1, -1 / 2, 1 / 2)] else [(0, -1 / 2, 1 / 2)] }
   | "BollingerBands" => { orders := [(0, 1), (1, 2)] }
   | "KeltnerChannel" => { orders := [(1, 2)] }
